@@ -124,12 +124,15 @@ Legal(a) ==
 (* force and zeroes the attempts; a refused send changes nothing; every    *)
 (* verification against a pair with a code in force is an attempt.         *)
 (* (tries saturates one above the limit: larger values change nothing)     *)
-InForce(a, charged) ==
+InForceH(a, charged, h) ==
   Ext(gs, a.p,
-      [code  |-> CodeOf(a), hash |-> a.hash, tries |-> 0,
+      [code  |-> CodeOf(a), hash |-> h, tries |-> 0,
        sends |-> IF cfg.win THEN Sends(a.p) + (IF charged THEN 1 ELSE 0) ELSE 0,
        ocode |-> IF Sent(a.p) THEN gs[a.p].code ELSE BadCode,
        ohash |-> IF Sent(a.p) THEN gs[a.p].hash ELSE BadHash])
+
+InForce(a, charged) == InForceH(a, charged, a.hash)
+UnknownHash == <<-1>>      \* a hash the caller never got to see (no presented hash equals it)
 
 Ghost(a) ==
   CASE a.op = "send" ->
@@ -137,10 +140,10 @@ Ghost(a) ==
          ELSE IF a.r = "gw"
          THEN \* the statement does not say what a send leaves behind whose delivery failed:
               \* nothing, or the new code in force (returned hash valid, attempts zeroed)
-              \* with or without the send being charged to the window
+              \* with or without the send being charged to the window; when the gateway
+              \* did not return (panic) the caller may not have been given the hash in force
               \/ gs' = gs
-              \/ gs' = InForce(a, TRUE)
-              \/ gs' = InForce(a, FALSE)
+              \/ \E charged \in BOOLEAN, h \in {a.hash, UnknownHash} : gs' = InForceH(a, charged, h)
          ELSE gs' = gs
     [] a.op = "verify" ->
          IF Sent(a.p)
